@@ -206,7 +206,7 @@ impl RandomProp for Crash {
         workload(5, if env.thorough() { 0 } else { 16 })
     }
     fn cases(env: &Env) -> u64 {
-        env.n(400, 6000)
+        env.n(400, 1200)
     }
 }
 
